@@ -455,6 +455,7 @@ func (g *cgGen) yaml(d *cgDoc) string {
 				continue
 			}
 			b.WriteString("              type:\n")
+			hasMin := false
 			if p.TypeID == "ref" && p.RefID != "" && g.r.Intn(2) == 0 {
 				b.WriteString("                id: " + g.key(p.RefID) + "\n")
 				b.WriteString("                type_id: ref\n")
@@ -465,6 +466,39 @@ func (g *cgGen) yaml(d *cgDoc) string {
 				}
 				if p.TypeID == "integer" && g.r.Intn(2) == 0 {
 					b.WriteString("                min: 0\n")
+					hasMin = true
+				}
+			}
+			// the rest of what a schema file says about a type (bounds, units, patterns, items): the generator
+			// reads none of it, whatever its YAML type is
+			if g.r.Intn(3) == 0 {
+				bound := func() string {
+					return g.pick([]string{"0", "1", "-5", "255", "0.05", "0.5", "2.5e3", "1.0e+30", "9.3e+18", "-1.7976931348623157e+308",
+						"1.7976931348623157e+308", ".inf", "-.inf", "9223372036854775807", "18446744073709551615", "99999999999999999999", "\"10\"", "~"})
+				}
+				switch p.TypeID {
+				case "integer", "float", "string", "list", "map":
+					if !hasMin && g.r.Intn(2) == 0 {
+						b.WriteString("                min: " + bound() + "\n")
+					}
+					if g.r.Intn(2) == 0 {
+						b.WriteString("                max: " + bound() + "\n")
+					}
+					g.stats["type:extra-bounds"]++
+				}
+				switch p.TypeID {
+				case "integer", "float":
+					if g.r.Intn(2) == 0 {
+						b.WriteString("                units:\n                  base_unit:\n                    name_short_singular: B\n                    name_short_plural: B\n                    name_long_singular: byte\n                    name_long_plural: bytes\n                  multipliers:\n                    1024:\n                      name_short_singular: kB\n                      name_short_plural: kB\n                      name_long_singular: kilobyte\n                      name_long_plural: kilobytes\n")
+					}
+				case "string":
+					if g.r.Intn(2) == 0 {
+						b.WriteString("                pattern: " + strconv.Quote("^[a-z]+$") + "\n")
+					}
+				case "list":
+					b.WriteString("                items:\n                  type_id: string\n                  max: " + bound() + "\n")
+				case "map":
+					b.WriteString("                keys:\n                  type_id: integer\n                  min: " + bound() + "\n                values:\n                  type_id: float\n")
 				}
 			}
 		}
@@ -890,6 +924,13 @@ func codegenCmd(a Args) {
 	}
 	buildTime := time.Since(start)
 
+	// 1b. the documented stand-alone entry point: `[ARG=object] go generate` in the generator's folder, several
+	// times in the same folder (the second run finds the first run's output there)
+	for _, why := range cgGoGenerateWitness(a.Out) {
+		finding(cgFinding{What: "go-generate: " + why[0], Cases: []int{}, Args: []string{}, Detail: why[1:]})
+	}
+	stats["go-generate-witness"]++
+
 	// 2. cases
 	g := &cgGen{r: rand.New(rand.NewSource(a.Seed)), stats: map[string]int{}}
 	var cases []*cgCase
@@ -1161,4 +1202,69 @@ func cgReplay(path string, cases *[]*cgCase, addGroup func(string, []string) int
 		cc := c
 		*cases = append(*cases, &cc)
 	}
+}
+
+// cgGoGenerateWitness copies the generator's source folder (gen.go, go.mod, go.sum), adds a schema file and
+// runs `go generate` there: twice without ARG, then with ARG naming an object, then without again. Every run
+// must finish, leave gofmt-valid output with one struct per non-ignored object, and equal inputs must give
+// equal bytes.
+func cgGoGenerateWitness(outDir string) [][]string {
+	src := filepath.Join(cgRepo(), "cmd", "arcaflow-codegen")
+	dir, err := filepath.Abs(filepath.Join(outDir, "go-generate"))
+	if err != nil {
+		return [][]string{{"cannot prepare the folder", err.Error()}}
+	}
+	_ = os.RemoveAll(dir)
+	if err := os.MkdirAll(dir, 0o755); err != nil {
+		return [][]string{{"cannot prepare the folder", err.Error()}}
+	}
+	defer os.RemoveAll(dir)
+	for _, f := range []string{"gen.go", "go.mod", "go.sum"} {
+		b, err := os.ReadFile(filepath.Join(src, f))
+		if err != nil {
+			return [][]string{{"cannot read the generator's " + f, err.Error()}}
+		}
+		if err := os.WriteFile(filepath.Join(dir, f), b, 0o644); err != nil {
+			return [][]string{{"cannot prepare the folder", err.Error()}}
+		}
+	}
+	yaml := "steps:\n  create:\n    id: create\n    input:\n      root: Pod\n      objects:\n" +
+		"        Pod:\n          id: Pod\n          properties:\n            meta:\n              type:\n                type_id: ref\n                id: ObjectMeta\n            replicas:\n              type:\n                type_id: integer\n" +
+		"        ObjectMeta:\n          id: ObjectMeta\n          properties:\n            name:\n              type:\n                type_id: string\n"
+	if err := os.WriteFile(filepath.Join(dir, "schema_input.yaml"), []byte(yaml), 0o644); err != nil {
+		return [][]string{{"cannot prepare the folder", err.Error()}}
+	}
+	var problems [][]string
+	var outs [][]byte
+	for i, arg := range []string{"", "", "ObjectMeta", ""} {
+		ctx, cancel := context.WithTimeout(context.Background(), 120*time.Second)
+		cmd := exec.CommandContext(ctx, "go", "generate")
+		cmd.Dir = dir
+		cmd.Env = append(os.Environ(), "GOFLAGS=-mod=mod", "GOPROXY=off", "GOSUMDB=off", "GOTOOLCHAIN=local", "ARG="+arg)
+		b, err := cmd.CombinedOutput()
+		cancel()
+		what := fmt.Sprintf("run %d of `ARG=%s go generate` in one folder", i+1, arg)
+		if err != nil {
+			problems = append(problems, []string{what + " did not finish: " + err.Error(), cgFirstLines(string(b), 4)})
+			return problems
+		}
+		out, err := os.ReadFile(filepath.Join(dir, "typedef_output.go"))
+		if err != nil {
+			problems = append(problems, []string{what + " left no typedef_output.go"})
+			return problems
+		}
+		outs = append(outs, out)
+		decls, _, perr := cgExtract(out)
+		want := 2
+		if arg != "" {
+			want = 1
+		}
+		if perr != nil || len(decls) != want {
+			problems = append(problems, []string{what + fmt.Sprintf(": the output does not hold %d structs", want), fmt.Sprint(perr), string(out)})
+		}
+	}
+	if len(outs) == 4 && (!bytes.Equal(outs[0], outs[1]) || !bytes.Equal(outs[0], outs[3])) {
+		problems = append(problems, []string{"the same input gives different bytes on a later run in the same folder", string(outs[0]), string(outs[1]), string(outs[3])})
+	}
+	return problems
 }
